@@ -14,6 +14,19 @@ type tok struct {
 	Var  bool
 }
 
+// isTwin: a static word spelled exactly like one of the prefix's variables.
+func isTwin(t tok, vars []string) bool {
+	if t.Var {
+		return false
+	}
+	for _, v := range vars {
+		if t.Text == v {
+			return true
+		}
+	}
+	return false
+}
+
 // scopeSpec is one generated scope with everything the oracle needs.
 type scopeSpec struct {
 	Batch       *batch
@@ -25,7 +38,7 @@ type scopeSpec struct {
 	CaseStress  []string   // stress class of each case ("" = none)
 	NameClass   string
 	OpClass     map[string]string
-	PrefixShape string   // e.g. "wvw" (w = word, v = variable), "-" = no prefix
+	PrefixShape string   // e.g. "wvw" (w = word, v = variable, t / n = word spelled like / containing a variable of the prefix: shapeText), "-" = no prefix
 	Stress      []string // stress feature classes of the scope
 	// SkipLangs: targets not evaluated for this (witness) scope because they can
 	// only be inconclusive there (e.g. Dart for a single quote in the prefix);
@@ -198,15 +211,7 @@ func genScope(rng *rand.Rand, names, ops *namer, thorough bool, exoticKind strin
 		shape = "-"
 	}
 	sp.PrefixShape = shape
-	var parts []string
-	for _, t := range sp.Tokens {
-		if t.Var {
-			parts = append(parts, "{"+t.Text+"}")
-		} else {
-			parts = append(parts, t.Text)
-		}
-	}
-	sc.Prefix = strings.Join(parts, ".")
+	sc.Prefix = prefixText(sp.Tokens)
 	// operations
 	opClasses := []string{"lower", "Upper", "camel", "UpperCamel", "UpperCamel", "snake", "ALLCAPS"}
 	for i, n := 0, 1+rng.Intn(3); i < n; i++ {
@@ -260,6 +265,120 @@ func genScope(rng *rand.Rand, names, ops *namer, thorough bool, exoticKind strin
 	return sp
 }
 
+// prefixText renders the tokens the way the IDL spells a prefix.
+func prefixText(toks []tok) string {
+	var parts []string
+	for _, t := range toks {
+		if t.Var {
+			parts = append(parts, "{"+t.Text+"}")
+		} else {
+			parts = append(parts, t.Text)
+		}
+	}
+	return strings.Join(parts, ".")
+}
+
+// shapeText is the prefix shape of the evidence: w = word, v = variable,
+// t = word that is the twin of (spelled exactly like) a variable of the prefix,
+// n = word that merely contains a variable's name; "-" = no prefix.
+func shapeText(toks []tok, vars []string) string {
+	if len(toks) == 0 {
+		return "-"
+	}
+	shape := ""
+	for _, t := range toks {
+		switch {
+		case t.Var:
+			shape += "v"
+		case isTwin(t, vars):
+			shape += "t"
+		case nearTwin(t.Text, vars):
+			shape += "n"
+		default:
+			shape += "w"
+		}
+	}
+	return shape
+}
+
+func nearTwin(word string, vars []string) bool {
+	for _, v := range vars {
+		if word != v && strings.Contains(word, v) {
+			return true
+		}
+	}
+	return false
+}
+
+// twinTokens adds the key/value style of prefix (`tenant.{tenant}.user.{user}`,
+// `{zone}.zone`) to a drawn scope: a static word of the prefix is spelled
+// exactly like one of the prefix's variables, or contains its name.  The
+// braces alone tell a variable from a word, so the prescribed topic keeps the
+// word verbatim and substitutes the variable only.  Applied after genScope
+// with a PRNG stream of its own, so the rest of the drawn workload is what it
+// was before this dimension existed.
+//
+// Per scope with >= 1 variable, one of (1 in 3 each): nothing; a twin; a
+// near twin (word containing the variable name: `users`, `user_id`, `myuser`).
+// The word replaces an existing static word or is inserted directly before /
+// directly after its variable, or at the far end of the prefix.
+func twinTokens(rng *rand.Rand, sp *scopeSpec) {
+	if len(sp.Vars) == 0 || len(sp.Stress) > 0 {
+		return
+	}
+	mode := rng.Intn(3)
+	if mode == 0 {
+		return
+	}
+	n := 1
+	if len(sp.Vars) > 1 && rng.Intn(2) == 0 {
+		n = 2
+	}
+	order := rng.Perm(len(sp.Vars))
+	for k := 0; k < n; k++ {
+		v := sp.Vars[order[k]]
+		word := tok{Text: v}
+		if mode == 2 {
+			word = tok{Text: []string{v + "s", v + "_id", "my" + v, upperFirst(v)}[rng.Intn(4)]}
+		}
+		var statics []int
+		vpos := -1
+		for i, t := range sp.Tokens {
+			if !t.Var && !isTwin(t, sp.Vars) {
+				statics = append(statics, i)
+			}
+			if t.Var && t.Text == v {
+				vpos = i
+			}
+		}
+		place := rng.Intn(4)
+		if place == 0 && len(statics) == 0 {
+			place = 1 + rng.Intn(3)
+		}
+		insert := func(at int) {
+			sp.Tokens = append(sp.Tokens, tok{})
+			copy(sp.Tokens[at+1:], sp.Tokens[at:])
+			sp.Tokens[at] = word
+		}
+		switch place {
+		case 0: // replaces a static word, wherever it is
+			sp.Tokens[statics[rng.Intn(len(statics))]] = word
+		case 1: // key.{key}
+			insert(vpos)
+		case 2: // {key}.key
+			insert(vpos + 1)
+		default: // far end: first or last token of the prefix
+			if vpos >= len(sp.Tokens)/2 {
+				insert(0)
+			} else {
+				insert(len(sp.Tokens))
+			}
+		}
+	}
+	sp.PrefixShape = shapeText(sp.Tokens, sp.Vars)
+	sp.Scope.Prefix = prefixText(sp.Tokens)
+}
+
 func finishBatch(b *batch) {
 	f := &idl.File{Base: b.Name, Ext: ".frugal"}
 	f.Decls = append(f.Decls, &idl.Decl{Struct: &idl.Struct{Kind: idl.KindStruct, Name: "Pay", Fields: []*idl.Field{{ID: 1, Name: "n", Type: idl.T("i32")}}}})
@@ -304,7 +423,7 @@ var prefixLayouts = []struct{ name, before, after string }{
 // genBatch draws one file; exoticKind != "" makes every scope of the file carry
 // that kind of exotic prefix character (one kind per file: a target whose
 // generator or tool chain chokes on it loses that file only).
-func genBatch(rng *rand.Rand, name string, nScopes int, thorough bool, exoticKind string) *batch {
+func genBatch(rng, twinRng *rand.Rand, name string, nScopes int, thorough bool, exoticKind string) *batch {
 	b := &batch{Name: name, Kind: "core"}
 	if exoticKind != "" {
 		b.Kind = "exotic"
@@ -312,7 +431,9 @@ func genBatch(rng *rand.Rand, name string, nScopes int, thorough bool, exoticKin
 	names := &namer{rng: rng, used: map[string]bool{"pay": true}}
 	ops := &namer{rng: rng, used: map[string]bool{}}
 	for i := 0; i < nScopes; i++ {
-		b.Scopes = append(b.Scopes, genScope(rng, names, ops, thorough, exoticKind))
+		sp := genScope(rng, names, ops, thorough, exoticKind)
+		twinTokens(twinRng, sp)
+		b.Scopes = append(b.Scopes, sp)
 	}
 	finishBatch(b)
 	return b
@@ -324,7 +445,8 @@ func genBatch(rng *rand.Rand, name string, nScopes int, thorough bool, exoticKin
 // that each is re-observed (KNOWN-FINDING line) or reported as gone.
 //
 //	c08w   core shapes, delimiters . / _ and the empty one   lower-case-first scope names (go/java/dart title-case),
-//	       and the witnesses of the two fixed findings (Go '.', Dart $user_)
+//	       and the witnesses of the two fixed findings (Go '.', Dart $user_);
+//	       key/value prefixes (static word spelled like a variable of the prefix)
 //	c08wp  -delim %: one scope with a variable          percent_delimiter (go, java, dart);
 //	       + a static-only prefix and a scope without prefix (correct everywhere: guards)
 //	c08wq  prefix words with %, $ and '                 exotic_prefix_percent (go, java, dart),
@@ -343,24 +465,14 @@ func witnessBatches() []*batch {
 	}
 	build := func(b *batch, ws []w) *batch {
 		for _, x := range ws {
-			sp := &scopeSpec{NameClass: x.class, OpClass: map[string]string{x.op: "Upper"}, Tokens: x.toks}
-			var parts []string
-			shape := ""
-			for _, t := range x.toks {
+			sp := &scopeSpec{NameClass: x.class, OpClass: map[string]string{x.op: "Upper"}, Tokens: append([]tok(nil), x.toks...)}
+			for _, t := range sp.Tokens {
 				if t.Var {
 					sp.Vars = append(sp.Vars, t.Text)
-					parts = append(parts, "{"+t.Text+"}")
-					shape += "v"
-				} else {
-					parts = append(parts, t.Text)
-					shape += "w"
 				}
 			}
-			if shape == "" {
-				shape = "-"
-			}
-			sp.PrefixShape = shape
-			sp.Scope = &idl.Scope{Name: x.name, Prefix: strings.Join(parts, "."), Ops: []*idl.Operation{{Name: x.op, Type: idl.T("Pay")}}}
+			sp.PrefixShape = shapeText(sp.Tokens, sp.Vars)
+			sp.Scope = &idl.Scope{Name: x.name, Prefix: prefixText(sp.Tokens), Ops: []*idl.Operation{{Name: x.op, Type: idl.T("Pay")}}}
 			sp.Cases = x.cases
 			for range x.cases {
 				sp.CaseClass = append(sp.CaseClass, "fixed")
@@ -389,6 +501,12 @@ func witnessBatches() []*batch {
 		{"Multi", "Upper", []tok{{"a", false}, {"user", true}, {"b", false}, {"tenant", true}}, "Both", [][]string{{"u1", "t1"}, {"same", "same"}}, "", nil},
 		// variable names with '_' and digits, one of them last (followed by the delimiter)
 		{"Ledger", "Upper", []tok{{"acct_id", true}, {"v2", false}, {"shard_9", true}}, "Posted", [][]string{{"a-1", "s_2"}}, "", nil},
+		// key/value style: a static word spelled exactly like a variable of the same
+		// prefix (before it, after it), values that are themselves the names; and
+		// words that only contain a variable's name.  Only braces make a variable.
+		{"Keyed", "Upper", []tok{{"region", false}, {"region", true}, {"zone", false}, {"zone", true}}, "Stored", [][]string{{"eu-1", "b"}, {"zone", "region"}}, "", nil},
+		{"Trail", "Upper", []tok{{"shardKey", true}, {"shardKey", false}, {"v3", false}}, "Moved", [][]string{{"k7"}}, "", nil},
+		{"Nearby", "Upper", []tok{{"users", false}, {"user", true}, {"user_id", false}}, "Seen", [][]string{{"carol"}}, "", nil},
 	})
 	pct := build(&batch{Name: "c08wp", Kind: "witness", Delims: []string{"%"}}, []w{
 		{"Lumen", "Upper", []tok{{"UP", false}, {"account", true}}, "Tick", [][]string{{"GQWW4yg"}}, "", nil},
@@ -418,15 +536,22 @@ func scopeText(sp *scopeSpec) string {
 	return strings.TrimSpace(idl.RenderFile(f, idl.DefaultStyle()))
 }
 
-// stressOf names the stress class of a tuple ("" = core).  One class only, the
-// most specific one, so that signatures do not multiply: exotic prefix
-// characters > '%' delimiter > special characters in variable values.
+// stressOf names the stress / feature class of a tuple ("" = core).  One class
+// only, the most specific one, so that signatures do not multiply: exotic
+// prefix characters > '%' delimiter > static word spelled like (or containing
+// the name of) a variable of the prefix > special characters in variable
+// values.  compare() puts the class into a signature only when no plain tuple
+// of the run shows the same deviation, i.e. when the class is what it takes.
 func stressOf(sp *scopeSpec, delim string, ci int) string {
 	switch {
 	case len(sp.Stress) > 0:
 		return sp.Stress[0]
 	case delim == "%":
 		return "percent_delimiter"
+	case strings.Contains(sp.PrefixShape, "t"):
+		return "static_word_named_like_variable"
+	case strings.Contains(sp.PrefixShape, "n"):
+		return "static_word_contains_variable_name"
 	case ci >= 0 && ci < len(sp.CaseStress) && sp.CaseStress[ci] != "":
 		return sp.CaseStress[ci]
 	}
